@@ -188,6 +188,10 @@ impl M {
         }
         Some(cycles)
     }
+    pub fn has_distinct_positions(&self) -> bool {
+        let set: BTreeSet<[u64; 3]> = self.v.iter().map(|p| [p[0].to_bits(), p[1].to_bits(), p[2].to_bits()]).collect();
+        set.len() == self.v.len()
+    }
     pub fn euler_characteristic(&self) -> i64 {
         let used: BTreeSet<u32> = self.f.iter().flat_map(|f| f.iter().copied()).collect();
         used.len() as i64 - self.edge_counts().len() as i64 + self.f.len() as i64
@@ -364,10 +368,12 @@ pub fn tube(around: usize, along: usize, radius: f64, length: f64) -> M {
     M { v, f }
 }
 
+/// Regular tetrahedron centred on the origin with unit circumradius, outward normals.
 pub fn tetrahedron() -> M {
+    let k = 1.0 / 3f64.sqrt();
     M {
-        v: vec![[0.0, 0.0, 0.0], [1.0, 0.0, 0.0], [0.0, 1.0, 0.0], [0.0, 0.0, 1.0]],
-        f: vec![[0, 2, 1], [0, 1, 3], [1, 2, 3], [0, 3, 2]],
+        v: vec![[k, k, k], [k, -k, -k], [-k, k, -k], [-k, -k, k]],
+        f: vec![[0, 1, 2], [0, 2, 3], [0, 3, 1], [1, 3, 2]],
     }
 }
 
